@@ -43,6 +43,9 @@ func NewPolling(filename string, reopen bool) (*PollingFollowReader, error) {
 
 // Drain navigates to the end of the stream
 func (s *PollingFollowReader) Drain() error {
+	if s.f == nil { // Re-open mode and the file does not exist yet: nothing to skip
+		return nil
+	}
 	offset, err := s.f.Seek(0, io.SeekEnd)
 	if err == nil {
 		s.readBytes = offset
